@@ -37,6 +37,11 @@
 #include "givrnsfixed.h"
 #include "chineseremainder.h"
 #include "givpoly1crt.h"
+#include "modular-balanced.h"
+#include "montgomery.h"
+#include <recint/recint.h>
+#include "modular-ruint.h"
+#include "modular-log16.h"
 
 using namespace Givaro;
 typedef std::vector<Integer> IV;
@@ -244,6 +249,13 @@ int main() {
                 else if (t[1] == "mu64") o << Integer(Modular<uint64_t>::maxCardinality());
                 else if (t[1] == "mi32") o << Integer(Modular<int32_t>::maxCardinality());
                 else if (t[1] == "mint") o << -1;
+                else if (t[1] == "mfloat") o << Integer(Modular<float>::maxCardinality());
+                else if (t[1] == "mu32") o << Integer(Modular<uint32_t>::maxCardinality());
+                else if (t[1] == "mont32") o << Integer(Montgomery<int32_t>::maxCardinality());
+                else if (t[1] == "mru7") o << Integer(Modular<RecInt::ruint<7> >::maxCardinality());
+                else if (t[1] == "mlog16") o << Integer(Modular<Log16>::maxCardinality());
+                else if (t[1] == "mb64") o << Integer(ModularBalanced<int64_t>::maxCardinality());
+                else if (t[1] == "mbd") o << Integer(ModularBalanced<double>::maxCardinality());
                 out = o.str();
             } else if (t[0] == "int" || t[0] == "rns") {
                 const std::string hist = t[1], sub = t[2];
@@ -263,6 +275,13 @@ int main() {
                     else if (sub == "mu64") out = run_rns<Modular<uint64_t> >(hist, P, R, a);
                     else if (sub == "mi32") out = run_rns<Modular<int32_t> >(hist, P, R, a);
                     else if (sub == "mint") out = run_rns<Modular<Integer> >(hist, P, R, a);
+                    else if (sub == "mfloat") out = run_rns<Modular<float> >(hist, P, R, a);
+                    else if (sub == "mu32") out = run_rns<Modular<uint32_t> >(hist, P, R, a);
+                    else if (sub == "mont32") out = run_rns<Montgomery<int32_t> >(hist, P, R, a);
+                    else if (sub == "mru7") out = run_rns<Modular<RecInt::ruint<7> > >(hist, P, R, a);
+                    else if (sub == "mlog16") out = run_rns<Modular<Log16> >(hist, P, R, a);
+                    else if (sub == "mb64") out = run_rns<ModularBalanced<int64_t> >(hist, P, R, a);
+                    else if (sub == "mbd") out = run_rns<ModularBalanced<double> >(hist, P, R, a);
                     else out = "BAD-DOM";
                 }
             } else if (t[0] == "fixed") {
